@@ -1,8 +1,10 @@
 ------------------------------ MODULE TwoBuffer ------------------------------
 (* Implementation-shaped model of the two-half input reader, byte for byte:
      Variant = "dep"    github.com/moorara/algo lexer/input/input.go (v0.11.0), used by the EBNF lexer
-     Variant = "fixed"  internal/generate/golang/templates/input.go.tmpl after the repair
+     Variant = "fixed"  internal/generate/golang/templates/input.go.tmpl after the first repair
                         (lastLoaded, end of input found by the end marker instead of a latched error)
+     Variant = "emit"   the template as it is now: "fixed" plus the pending bytes of the lexeme kept outside the
+                        buffer (`pending`), so that a lexeme may be longer than the buffer
    A source is a sequence of runes (code points); its bytes are identified as
    <<j, k>> = k-th byte of rune j, <<0, 0>> is the NUL end marker.  One buffer of 2N
    cells is divided into two halves that are loaded alternately.
@@ -32,10 +34,11 @@ Load(src, st, lo, half) ==
      THEN IF k = 0 THEN [st EXCEPT !.err = "eof"]                  \* Read returns (0, io.EOF): the error is latched
           ELSE [st EXCEPT !.buff = marked, !.rd = st.rd + k]
      ELSE [st EXCEPT !.buff = marked, !.rd = st.rd + k, !.last = half]
+Fixed == Variant \in {"fixed", "emit"}
 
 NewInput(src) ==
   LET st0 == [buff |-> [i \in 0..(2 * N - 1) |-> NUL], fwd |-> 0, beg |-> 0, rd |-> 0, err |-> "none", last |-> 0,
-              sizes |-> <<>>, lcols |-> <<>>, offset |-> 0, line |-> 1, column |-> 1, ncol |-> 1]
+              sizes |-> <<>>, lcols |-> <<>>, pend |-> <<>>, offset |-> 0, line |-> 1, column |-> 1, ncol |-> 1]
   IN Load(src, st0, 0, 0)
 \* the dependency's New fails on an empty source
 NewFails(src) == Variant = "dep" /\ Len(src) = 0
@@ -43,11 +46,11 @@ NewFails(src) == Variant = "dep" /\ Len(src) = 0
 \* next(): one byte; returns [st, b] with b = "err" when an error is reported instead
 NextByte(src, st) ==
   IF st.err # "none" THEN [st |-> st, b |-> ERRB]
-  ELSE IF Variant = "fixed" /\ st.buff[st.fwd] = NUL THEN [st |-> st, b |-> ERRB]     \* stands on the end marker
+  ELSE IF Fixed /\ st.buff[st.fwd] = NUL THEN [st |-> st, b |-> ERRB]     \* stands on the end marker
   ELSE
     LET b == st.buff[st.fwd]
         f1 == st.fwd + 1
-        moved == [st EXCEPT !.fwd = f1]
+        moved == [st EXCEPT !.fwd = f1, !.pend = IF Variant = "emit" THEN Append(@, b) ELSE @]
         st2 == IF f1 = N
                THEN IF Variant = "dep" \/ st.last = 0 THEN Load(src, moved, N, 1) ELSE moved
                ELSE IF f1 = 2 * N
@@ -90,7 +93,8 @@ Retract_(src, st) ==
   IF st.sizes = <<>> THEN [st |-> st, ret |-> <<"ok">>]
   ELSE LET f0 == st.fwd - Top(st.sizes)
            f == IF f0 < 0 THEN f0 + 2 * N ELSE f0
-           s1 == [st EXCEPT !.fwd = f, !.sizes = Pop(st.sizes)]
+           s1 == [st EXCEPT !.fwd = f, !.sizes = Pop(st.sizes),
+                            !.pend = IF Variant = "emit" THEN SubSeq(@, 1, Len(@) - Top(st.sizes)) ELSE @]
            s2 == IF IsLF(src, s1.buff[f])
                  THEN IF s1.lcols # <<>> THEN [s1 EXCEPT !.ncol = Top(s1.lcols), !.lcols = Pop(s1.lcols)] ELSE s1
                  ELSE [s1 EXCEPT !.ncol = s1.ncol - 1]
@@ -101,11 +105,11 @@ Collect(buff, from, to, fuel) ==
   IF from = to \/ fuel = 0 THEN <<>>
   ELSE <<buff[from]>> \o Collect(buff, IF from + 1 = 2 * N THEN 0 ELSE from + 1, to, fuel - 1)
 
-Commit(st) == [st EXCEPT !.beg = st.fwd, !.sizes = <<>>, !.lcols = <<>>,
+Commit(st) == [st EXCEPT !.beg = st.fwd, !.sizes = <<>>, !.lcols = <<>>, !.pend = <<>>,
                          !.offset = st.offset + Len(st.sizes), !.line = st.line + Len(st.lcols), !.column = st.ncol]
 PosOf(st) == <<st.offset, st.line, st.column>>
 \* (fuel bounds the dependency's loop when forward is stuck at 2N after a failed reload)
-Lexeme_(src, st) == [st |-> Commit(st), ret |-> <<"lexeme", Collect(st.buff, st.beg, st.fwd, 2 * N), PosOf(st)>>]
+Lexeme_(src, st) == [st |-> Commit(st), ret |-> <<"lexeme", IF Variant = "emit" THEN st.pend ELSE Collect(st.buff, st.beg, st.fwd, 2 * N), PosOf(st)>>]
 Skip_(src, st)   == [st |-> Commit(st), ret |-> <<"pos", PosOf(st)>>]
 
 Apply(op, src, st) ==
